@@ -1,6 +1,7 @@
 import SudsModel.Driver.Util
 import SudsModel.Xsd.DepSort
 import SudsModel.Xsd.Qualify
+import SudsModel.Xsd.Consolidate
 namespace Suds.Driver.C07
 open Lean Suds.Driver Suds.Xsd Suds.Xml
 
@@ -19,6 +20,23 @@ def handle : Handler := fun op j =>
     some (match qualifyRef (jstr j "ref") ctx (jstr? j "tns") with
       | none => Json.mkObj [("err", "prefix not resolved")]
       | some (n, u) => Json.arr #[.str n, match u with | some x => .str x | none => .null])
+  | "consolidate" =>
+    let nodeOf (n : Json) : SchemaNode :=
+      ⟨(if jstr n "form" == "qualified" then Form.qualified else Form.unqualified),
+       (jarr n "prefixes").toList.map (fun pu => ((asStr? ((asArr pu)[0]?.getD Json.null)).getD "",
+                                                   (asStr? ((asArr pu)[1]?.getD Json.null)).getD "")),
+       (jarr n "locals").toList.map fun e =>
+         ⟨jstr e "name", match jstr? e "form" with
+            | some "qualified" => some Form.qualified
+            | some "unqualified" => some Form.unqualified
+            | _ => none⟩⟩
+    let r := consolidate (nodeOf (jget j "first")) (nodeOf (jget j "second"))
+    let formStr : Form → String := fun f => match f with | .qualified => "qualified" | .unqualified => "unqualified"
+    some (Json.mkObj [
+      ("prefixes", Json.arr (r.prefixes.map fun pu => Json.arr #[.str pu.1, .str pu.2]).toArray),
+      ("locals", Json.arr (r.locals.map fun e => Json.arr #[.str e.name,
+          match e.explicit with | some f => .str (formStr f) | none => .null,
+          .str (formStr (effectiveForm r.formDefault e))]).toArray)])
   | _ => none
 
 end Suds.Driver.C07
